@@ -2,6 +2,7 @@ package c08
 
 import (
 	"fmt"
+	"runtime"
 	"sort"
 	"sync"
 	"testing"
@@ -28,6 +29,7 @@ type LStep struct {
 	RaceN     int    `json:",omitempty"` // accusations released at the instant of the call
 	RaceKind  string `json:",omitempty"`
 	RaceOffUs []int  `json:",omitempty"` // arrival offsets relative to the call, microseconds
+	HoldLock  bool   // park Leave and the racing accusations behind a held node lock, then release
 }
 
 type LPlan struct {
@@ -49,6 +51,7 @@ func genLPlan(t *rapid.T) LPlan {
 	}), 0, 3).Draw(t, "pre")
 	lv := LStep{Kind: "leave", TimeoutMs: rapid.SampledFrom([]int{300, 1500}).Draw(t, "timeout"), RaceN: rapid.SampledFrom([]int{0, 1, 2, 4}).Draw(t, "racen"),
 		RaceKind: rapid.SampledFrom([]string{"suspect", "suspect", "dead", "alive"}).Draw(t, "racekind")}
+	lv.HoldLock = rapid.IntRange(0, 2).Draw(t, "holdlock") == 0
 	for i := 0; i < lv.RaceN; i++ {
 		lv.RaceOffUs = append(lv.RaceOffUs, rapid.SampledFrom([]int{0, 0, 0, -1, 1, 20}).Draw(t, "off"))
 	}
@@ -178,6 +181,73 @@ func runL(pl LPlan) (res vfx.Result) {
 					hadPeer = true
 				}
 			}
+			if st.HoldLock && st.RaceN > 0 {
+				// A membership event callback runs under the node lock: park one there (a push/pull row about a
+				// new member, handled on a stream goroutine), queue Leave and the accusations behind the lock,
+				// then let go. Virtual time cannot advance while goroutines wait on the mutex, so everything
+				// here is delivered without timers and paced by yielding.
+				hold := make(chan struct{})
+				p.Rec.HoldName, p.Rec.HoldEvent = "blocker", hold
+				go func() {
+					_, _ = p.PushPullTo(p.Obs, false, []wire.PushNodeState{{Name: "blocker", Addr: []byte{10, 0, 9, 9}, Port: 7946, Incarnation: 1, State: 0, Vsn: vsn}}, nil, false)
+				}()
+				for spin := 0; spin < 200000 && p.Rec.Holding.Load() == 0; spin++ {
+					runtime.Gosched()
+				}
+				parked := p.Rec.Holding.Load() != 0
+				if !parked {
+					// the schedule did not cooperate: fall back to the plain same-instant race below
+					close(hold)
+					p.Rec.HoldEvent = nil
+					labels["park-failed"] = true
+				}
+				if parked {
+					var lerr error
+					leaveDone := make(chan struct{})
+					go func() { lerr = p.M.Leave(time.Duration(st.TimeoutMs) * time.Millisecond); close(leaveDone) }()
+					for spin := 0; spin < 3000; spin++ {
+						runtime.Gosched()
+					}
+					for range st.RaceOffUs {
+						p.Net.DeliverNow(src, p.Addr(), p.Outer(mkAcc(st.RaceKind, inc).Leaf()))
+					}
+					for spin := 0; spin < 3000; spin++ {
+						runtime.Gosched()
+					}
+					close(hold)
+					p.Rec.HoldEvent = nil
+					<-leaveDone
+					retAt := p.Net.Now()
+					labels["race-behind-held-lock:"+st.RaceKind] = true
+					logf("%v Leave(%dms) behind a held node lock -> %v (own inc before %d, %d racing %s)", retAt, st.TimeoutMs, lerr, inc, st.RaceN, st.RaceKind)
+					p.Settle()
+					res.NonTrivial = true
+					if lerr == nil {
+						first := !leftOK
+						leftOK = true
+						li, state, err := ownInc()
+						if err != nil {
+							return fail("%s: %v", where, err)
+						}
+						if first {
+							leaveInc, leaveRet, leaveEvIdx = li, retAt, p.Rec.Len()
+						}
+						if state != wire.StateLeft {
+							return fail("%s: Leave returned nil but the node's own record is %s (history %v)", where, wire.StateName(state), hist)
+						}
+						if pl.Peers > 0 && hadPeer {
+							ok, err := announced(retAt)
+							if err != nil {
+								return fail("%s: %v", where, err)
+							}
+							if !ok {
+								return fail("%s: Leave returned nil at %v with live peers in view, but no dead{n0 from n0} had been sent to any of them (history %v)", where, retAt, hist)
+							}
+						}
+					}
+					break
+				}
+			}
 			callAt := p.Net.Now() + time.Millisecond
 			for _, off := range st.RaceOffUs {
 				// arrive exactly at the instant of the call (latency 200us), give or take the offset
@@ -248,16 +318,33 @@ func runL(pl LPlan) (res vfx.Result) {
 			if err != nil {
 				return fail("%s: %v", where, err)
 			}
+			// wire order: once the departure has been announced, no alive about the node at a higher incarnation
+			var depAt time.Duration = -1
+			var depInc uint32
 			for _, o := range out {
+				if d, ok := o.Leaf.V.(*wire.Dead); ok && d.Node == "n0" && d.From == "n0" && depAt < 0 {
+					depAt, depInc = o.T, d.Incarnation
+				}
+				if a, ok := o.Leaf.V.(*wire.Alive); ok && a.Node == "n0" && depAt >= 0 && o.T >= depAt && a.Incarnation > depInc {
+					return fail("%s: after announcing its departure at incarnation %d the node announced itself alive at incarnation %d to %s (history %v)", where, depInc, a.Incarnation, o.Dst, hist)
+				}
 				if a, ok := o.Leaf.V.(*wire.Alive); ok && a.Node == "n0" && o.T > leaveRet && a.Incarnation > leaveInc {
 					return fail("%s: after leaving at incarnation %d the node announced itself alive at incarnation %d to %s (history %v)", where, leaveInc, a.Incarnation, o.Dst, hist)
 				}
 			}
-			for _, e := range p.Rec.Since(leaveEvIdx) {
-				if e.Name == "n0" && (e.Kind == "join" || e.Kind == "update") {
-					return fail("%s: after Leave the node delivered %v about itself (history %v)", where, e, hist)
+			// event order: after its own leave event the node never reports itself joined or updated again
+			seenLeave := false
+			for _, e := range p.Rec.Events() {
+				if e.Name != "n0" {
+					continue
+				}
+				if e.Kind == "leave" {
+					seenLeave = true
+				} else if seenLeave && (e.Kind == "join" || e.Kind == "update") {
+					return fail("%s: after its own leave event the node delivered %v about itself (history %v)", where, e, hist)
 				}
 			}
+			_ = leaveEvIdx
 		}
 		logf("%s", where)
 	}
